@@ -253,3 +253,59 @@ fn q_ledger_clear_mixed() {
         assert!(c.len() == 0);
     }
 }
+
+// ---- C17 / C12 / C06 with key/value types of which only one has a destructor ---------------------------------
+// (code that consults mem::needs_drop must ask about the pair, not about one half)
+#[kani::proof]
+#[kani::unwind(6)]
+fn q_forget_mixed() {
+    if kani::any() {
+        let mut c = prebuilt_mixed_v(2);
+        {
+            let mut d = c.drain();
+            let _ = consume(&mut d, 2);
+            std::mem::forget(d);
+        }
+        // yielded values were dropped by us; the cache must not drop them again, and must still be a cache
+        coherent(&c);
+        let probe = kani::any::<u8>() % 3;
+        let _ = c.peek(&probe).is_some();       // still usable: every entry it lists must be live
+        c.clear();
+        drop(c);
+    } else {
+        let mut c = prebuilt_mixed_k(2);
+        {
+            let mut d = c.drain();
+            let _ = consume(&mut d, 2);
+            std::mem::forget(d);
+        }
+        coherent(&c);
+        let probe = T::probe(3, 0);
+        let _ = c.peek(&probe).is_some();       // still usable: every entry it lists must be live (Eq asserts liveness)
+        drop(probe);
+        c.clear();
+        drop(c);
+    }
+}
+#[kani::proof]
+#[kani::unwind(6)]
+fn q_ledger_owning_mixed() {
+    let kind: u8 = kani::any();
+    if kani::any() {
+        let c = prebuilt_mixed_v(2);
+        match kind {
+            0 => { let mut it = c.into_iter(); let _ = consume(&mut it, 2); }
+            1 => { let mut it = c.into_keys(); let _ = consume(&mut it, 2); }
+            _ => { let mut it = c.into_values(); let _ = consume(&mut it, 2); }
+        }
+        assert!(state(4) == 2 && state(5) == 2, "an owning iterator leaked values it had not yielded (keys need no destructor)");
+    } else {
+        let c = prebuilt_mixed_k(2);
+        match kind {
+            0 => { let mut it = c.into_iter(); let _ = consume(&mut it, 2); }
+            1 => { let mut it = c.into_keys(); let _ = consume(&mut it, 2); }
+            _ => { let mut it = c.into_values(); let _ = consume(&mut it, 2); }
+        }
+        assert!(state(0) == 2 && state(1) == 2, "an owning iterator leaked keys it had not yielded (values need no destructor)");
+    }
+}
